@@ -285,10 +285,16 @@ impl Segment {
 
     pub async fn shutdown_writing(&mut self) {
         if let Some(log_writer) = self.log_writer.take() {
+            #[cfg(not(iggy_verif))]
             tokio::spawn(async move {
                 let _ = log_writer.fsync().await;
                 log_writer.shutdown_persister_task().await;
             });
+            #[cfg(iggy_verif)]
+            tokio::spawn(iggy::verif::wrap_spawn("close_log", async move {
+                let _ = log_writer.fsync().await;
+                log_writer.shutdown_persister_task().await;
+            }));
         } else {
             warn!(
                 "Log writer already closed when calling close() for {}",
@@ -297,10 +303,16 @@ impl Segment {
         }
 
         if let Some(index_writer) = self.index_writer.take() {
+            #[cfg(not(iggy_verif))]
             tokio::spawn(async move {
                 let _ = index_writer.fsync().await;
                 drop(index_writer)
             });
+            #[cfg(iggy_verif)]
+            tokio::spawn(iggy::verif::wrap_spawn("close_index", async move {
+                let _ = index_writer.fsync().await;
+                drop(index_writer)
+            }));
         } else {
             warn!("Index writer already closed when calling close()");
         }
